@@ -364,6 +364,8 @@ fn fat_json(g: &Geo, img: &Image, copy: u64) -> Value {
     json!({"e0":e0,"e0h":e0h,"e1":e1,"e1h":e1h,"used":used,"m":fm,"hm":hm,"bad":bad,"padx":padx & 0x7FFF_FFFF,"padz":clamp_i(padz),"padn":clamp_i(pad_total)})
 }
 
+pub const MAX_USED_ENTRIES: usize = 30_000;
+
 pub fn decode(img: &Image, o: &DecodeOpts) -> Value {
     let g = match Geo::parse(img) {
         Some(g) => g,
@@ -394,6 +396,11 @@ pub fn decode(img: &Image, o: &DecodeOpts) -> Value {
         for k in 0..g.nfats {
             fats.push(fat_json(&g, img, k));
         }
+    }
+    // No generated history comes near this many clusters in use: a table this dense is the trace of stray writes into the table area.
+    // It is not projected (the cost per event would be unbounded); the specification reports the image as undecodable.
+    if fats.iter().any(|f| f["used"].as_array().map_or(0, Vec::len) > MAX_USED_ENTRIES) {
+        return json!({"ok": false, "why": "dense"});
     }
     // directories, breadth first
     let mut dirs: Vec<Value> = Vec::new();
